@@ -400,6 +400,31 @@ def rule_r7(ck, prog, rule='C14.R7'):
                 break
             lang |= l
         site = '%s-language' % ('key' if 'Key' in name else 'value')
+        # a separate length test `x.size() <= K` that the decision is conjoined with caps an otherwise unbounded repeat
+        g0 = Graph(prog, f, inline=None, sync_lambdas=False)
+        rd0 = reaching_defs(g0)
+        size_tests = {}
+        for n in f.nodes:
+            c = comparison(f, n['i'])
+            if c and c[0] in ('<=', '<', '>', '>='):
+                rel = relation(g0, rd0, f, n['i'], g0.root_ctx, True)
+                if rel and rel[0] == '>=0':
+                    d = dict(rel[1])
+                    syms = [k for k in d if k != '1']
+                    if len(syms) == 1 and syms[0].endswith('.size()') and d[syms[0]] == -1:
+                        size_tests[n['i']] = (d.get('1', 0), True)      # true means size <= K
+                    elif len(syms) == 1 and syms[0].endswith('.size()') and d[syms[0]] == 1:
+                        size_tests[n['i']] = (-d.get('1', 0) - 1, False)   # true means size >= K+1
+        if size_tests and bad is None and len({k for (k, _w) in size_tests.values()}) == 1:
+            K = list(size_tests.values())[0][0]
+            capped = set()
+            for seq in lang:
+                unb = [k for k, (_c, _lo, hi) in enumerate(seq) if hi is None]
+                if len(unb) == 1 and all(lo == hi for k, (_c, lo, hi) in enumerate(seq) if k != unb[0]):
+                    fixed = sum(lo for k, (_c, lo, hi) in enumerate(seq) if k != unb[0])
+                    seq = tuple((c_, lo, (K - fixed) if k == unb[0] else hi) for k, (c_, lo, hi) in enumerate(seq))
+                capped.add(seq)
+            lang = frozenset(capped)
         if bad is not None:
             ck.inconclusive(rule, f, site, None, 'pattern %r is outside the supported regex fragment' % bad)
         elif search:
@@ -411,12 +436,19 @@ def rule_r7(ck, prog, rule='C14.R7'):
         g = Graph(prog, f, inline=None, sync_lambdas=False)
         ok = bool(rms) and len(rms) == len(pats)
         if ok:
-            allf = returns_under_pins(g, {n['i']: F for n in rms})
+            base = {k: (T if w else F) for k, (_K, w) in size_tests.items()}
+            def _m(a, b):
+                r = dict(a)
+                r.update(b)
+                return r
+            allf = returns_under_pins(g, _m(base, {n['i']: F for n in rms}))
             ok = allf == {F}
             for n in rms:
-                pins = {m['i']: F for m in rms}
+                pins = _m(base, {m['i']: F for m in rms})
                 pins[n['i']] = T
                 if returns_under_pins(g, pins) != {T}:
+                    ok = False
+                if size_tests and returns_under_pins(g, _m(pins, {k: (F if w else T) for k, (_K, w) in size_tests.items()})) != {F}:
                     ok = False
         ck.verdict(ok, rule, f, site.replace('language', 'decision'), rms[0] if rms else None,
                    'returns true exactly when one of its %d pattern(s) matches the whole string' % len(rms) if ok else
